@@ -8,6 +8,8 @@ import (
 	"encoding/binary"
 	"fmt"
 	"math/rand"
+	"os"
+	"strings"
 	"testing"
 	"time"
 )
@@ -94,6 +96,15 @@ func vfAdvClasses() []vfAdvClass {
 		{"data-wrong-kind", func(w *vfWorld, to int, il bool) []byte {
 			_, _, rc, _ := live(w, to)
 			return w.vfForge(to, vfEncData(!il, rc+1, 1, 0, 0, 0, 51, true, true, false, false, []byte("xxxx")))
+		}},
+		// the kind check does not depend on where the TSN lies: a duplicate or out-of-window TSN is still the wrong kind
+		{"data-wrong-kind-dup-tsn", func(w *vfWorld, to int, il bool) []byte {
+			_, _, rc, _ := live(w, to)
+			return w.vfForge(to, vfEncData(!il, rc, 1, 0, 0, 0, 51, true, true, false, false, []byte("xxxx")))
+		}},
+		{"data-wrong-kind-beyond-window", func(w *vfWorld, to int, il bool) []byte {
+			_, _, rc, W := live(w, to)
+			return w.vfForge(to, vfEncData(!il, rc+W+10, 1, 0, 0, 0, 51, true, true, false, false, []byte("xxxx")))
 		}},
 		{"data-beyond-window", func(w *vfWorld, to int, il bool) []byte {
 			_, _, rc, W := live(w, to)
@@ -259,6 +270,9 @@ func init() {
 		k := 0
 		for _, sit := range vfAdvSituations {
 			for ci, cl := range vfAdvClasses() {
+				if only := os.Getenv("VF_ONLY"); only != "" && !strings.Contains(cl.name, only) {
+					continue
+				}
 				for _, il := range []bool{false, true} {
 					for to := 0; to < 2; to++ {
 						k++
